@@ -14,12 +14,13 @@ Ghost statements (strings, executed in spec mode): assignments to ghost variable
 '''
 import ast
 
-from .values import (KRecord, KVarTuple, Kind, KInt, KBool, KReal, KU, KList, KSet, KDict, KTuple, KOpt, KObj,
+from .values import (KExcOr, KRecord, KVarTuple, Kind, KInt, KBool, KReal, KU, KList, KSet, KDict, KTuple, KOpt, KObj,
                      KConst, KOneOf)
 
 Int, Bool, Real = KInt, KBool, KReal
 VarTuple = KVarTuple
 Record = KRecord
+ExcOr = KExcOr
 
 
 class KCallable(Kind):
